@@ -26,7 +26,7 @@ EXPLANATION = ('Layer 1: every registered binary rule is attempted on every orde
                '(validation of the abstraction).')
 FUNCTIONS = ['AlgebraicReductionRule.apply', 'IdentityRule.apply', 'HomothetyRule.apply', 'AbstractBinaryRule.check', 'InverseBinaryRule.check', 'BINARY_RULE_REGISTRY and every registered rule (table layer)',
              'CompositionOperator.reduce (layer 3)']
-BOUNDS = {'quick': 'layer 2: chains of length 2-3 over 38 codes (24 kinds + scalar/identity on 7 structures), scalar values in -3..3; layer 3: all real chains of length 2-3',
+BOUNDS = {'quick': 'layer 2: chains of length 2-3 over 40 codes (26 kinds + scalar/identity on 7 structures) and chains of length 4 over a 13-code alphabet of the kinds that take part in vanishing/regenerating patterns, scalar values in -3..3; layer 3: all real chains of length 2-3 and all real chains X @ (vanishing pair) @ Y [@ Z]',
           'thorough': 'layer 2: chains of length <= 4; layer 3: real chains of length <= 4'}
 STUBS = ['rules.HomothetyOperator / IdentityOperator / jnp / BINARY_RULE_REGISTRY bound to table-driven stubs inside the CrossHair run (the driver code itself is the real one)']
 ASSUMPTIONS = ['chains longer than the bound are outside the claim', 'identities produced by a rule mid-scan are not required to be removed (the property does not demand it)']
@@ -42,15 +42,26 @@ def cases(tier, seed):
     out = [('table',)]
     out += [('real', first, maxlen) for first in range(M.NK + 2)]
     out += [('ch', first, maxlen) for first in range(n)]
+    # one step deeper over the small alphabet of kinds that take part in annihilating / regenerating patterns
+    small = _small_alphabet(M)
+    out += [('ch-small', first, maxlen + 1) for first in small]
+    out += [('real-nested', first) for first in range(M.NK + 2)]
     return out
+
+
+def _small_alphabet(M):
+    names = ['AI', 'A', 'U', 'UT', 'Rot', 'RotT', 'Hwp', 'Pol', 'W', 'Rs', 'RsT']
+    s2 = M.SID[str(M.S(2))]
+    return [M.NAMES.index(n) for n in names] + [M.NK + s2, M.NK + M.NS + s2]
 
 
 def twins():
     return [('twin-ch',)]
 
 
-def _crosshair(first, maxlen, timeout, mutant=False):
-    env = dict(os.environ, C07_FIRST=str(first), C07_MAXLEN=str(maxlen), PYTHONPATH=VERIF + os.pathsep + os.environ.get('PYTHONPATH', ''))
+def _crosshair(first, maxlen, timeout, mutant=False, allowed=None, minlen=2):
+    env = dict(os.environ, C07_FIRST=str(first), C07_MAXLEN=str(maxlen), C07_MINLEN=str(minlen), PYTHONPATH=VERIF + os.pathsep + os.environ.get('PYTHONPATH', ''))
+    env['C07_ALLOWED'] = ','.join(map(str, allowed)) if allowed else ''
     if mutant:
         env['C07_MUTANT'] = '1'
     target = os.path.join(VERIF, 'fxv', 'ch', 'c07_driver_mut.py' if mutant else 'c07_driver.py')
@@ -83,15 +94,21 @@ def run_case(key, twin=False):
         return _table(M)
     if key[0] == 'real':
         return _real(M, key[1], key[2])
+    if key[0] == 'real-nested':
+        return _real_nested(M, key[1])
     if key[0] == 'twin-ch':
-        out, dt = _crosshair(M.NAMES.index('AI'), 4, 400, mutant=True)
+        out, dt = _crosshair(M.NAMES.index('AI'), 4, 400, mutant=True, allowed=[M.NAMES.index(n) for n in ('AI', 'A', 'U', 'UT')])
         st, info = _parse(out)
         if st.startswith('counterexample'):
             return violation(f'(expected) mutated driver without step-back fails on {info}', signature='twin', kind='twin', solver_s=dt)
         return ok(sample=dict(note='mutant not found', out=out[-300:]))
     _, first, maxlen = key
     per = 240 if maxlen <= 3 else 1500
-    out, dt = _crosshair(first, maxlen, per)
+    if key[0] == 'ch-small':
+        per = 500
+        out, dt = _crosshair(first, maxlen, per, allowed=_small_alphabet(M), minlen=maxlen)
+    else:
+        out, dt = _crosshair(first, maxlen, per)
     st, info = _parse(out)
     name = M.NAMES[first] if first < M.NK else (f'scalar@{first - M.NK}' if first < M.NK + M.NS else f'identity@{first - M.NK - M.NS}')
     if st == 'confirmed':
@@ -196,9 +213,47 @@ def _real(M, first, maxlen):
     return ok(obligations=0, real_chains=n_chains, nontrivial=n_reducible > 0, sample=dict(head=head, real_chains=n_chains, rewritten=n_reducible, maxlen=maxlen))
 
 
+def _real_nested(M, first):
+    """Real chains X @ p @ q @ Y where p @ q is a pattern that vanishes: the neighbours become adjacent only after the rewrite."""
+    import jax.numpy as jnp
+    from furax._base.core import CompositionOperator, HomothetyOperator, IdentityOperator
+    names = M.NAMES + ['HOMO', 'ID']
+    sids = sorted(M.STRUCT_OF)
+
+    def instances(name):
+        if name == 'HOMO':
+            return [(M.NK + s, HomothetyOperator(jnp.array(2.0, jnp.float32), M.STRUCT_OF[s])) for s in sids]
+        if name == 'ID':
+            return [(M.NK + M.NS + s, IdentityOperator(M.STRUCT_OF[s])) for s in sids]
+        return [(M.NAMES.index(name), M.CAT[name])]
+    pool = [x for n in names for x in instances(n)]
+    vanishing = [(a, b) for (a, b), res in M.TABLE_N.items() if res == []]
+    n_chains = n_rewritten = 0
+    for x in instances(names[first]):
+        for a, b in vanishing:
+            for y in pool:
+                chain = [x, (M.NAMES.index(a), M.CAT[a]), (M.NAMES.index(b), M.CAT[b]), y]
+                for extra in ([], [pool[0]]):
+                    ch = chain + [(c, o) for c, o in extra]
+                    codes = [c for c, _ in ch]
+                    if not M.compatible(codes):
+                        continue
+                    n_chains += 1
+                    red = CompositionOperator([o for _, o in ch]).reduce()
+                    out = red.operands if isinstance(red, CompositionOperator) else [red]
+                    kinds = [M.classify(o) for o in out]
+                    still = [f'{M.classify(p)} @ {M.classify(q)}' for p, q in zip(out, out[1:]) if M.real_pair(p, q) is not None]
+                    if still or kinds.count('HOMO') > 1:
+                        label = [names[c] if c < M.NK else ('HOMO' if c < M.NK + M.NS else 'ID') for c in codes]
+                        return violation(f'real chain {label} reduces to {kinds}: ' + (f'adjacent pair {still[0]} is still reducible' if still else 'two scalar factors remain'),
+                                         model={'codes': codes}, signature=f'c07-real-nested:{still[:1]}', kind='real-nested')
+                    n_rewritten += 1
+    return ok(obligations=0, real_chains=n_chains, nontrivial=n_chains > 0, sample=dict(head=names[first], nested_real_chains=n_chains))
+
+
 def extra_coverage(results):
     return dict(real_chains_reduced=sum(r.get('real_chains', 0) for r in results),
-                crosshair_runs_confirmed=sum(1 for r in results if r['status'] == 'ok' and isinstance(r['key'], (list, tuple)) and r['key'][0] == 'ch'))
+                crosshair_runs_confirmed=sum(1 for r in results if r['status'] == 'ok' and isinstance(r['key'], (list, tuple)) and r['key'][0] in ('ch', 'ch-small')))
 
 
 def replay(key, model, info):
@@ -212,6 +267,9 @@ def replay(key, model, info):
         return r['status'] == 'violation', r.get('what', 'ok')
     if kind == 'real':
         r = _real(M, key[1], key[2])
+        return r['status'] == 'violation', r.get('what', 'ok')
+    if kind == 'real-nested':
+        r = _real_nested(M, key[1])
         return r['status'] == 'violation', r.get('what', 'ok')
     codes, values = model.get('codes'), model.get('values')
     if codes is None:
